@@ -8,6 +8,7 @@
   interpreter), and `upper_idem` proves it for the ASCII instance the driver runs.
 -/
 import ICal.Lemmas.CDict
+import ICal.Lemmas.BodiesCDict
 namespace ICal.C17
 open ICal.CDict
 
@@ -168,5 +169,46 @@ example : cdEq upper ([(['A'], 1), (['B'], 2)] : Store Nat) [(['b'], 2), (['a'],
 example : canonsort [['Z'], ['B'], ['A'], ['C']] [['C'], ['B'], ['C']] = [['B'], ['C'], ['A'], ['Z']] := by
   rw [canonsort_spec _ _ (by decide)]
   simp [dedupLast, List.mergeSort, List.MergeSort.Internal.splitInTwo, strLe, strLt]
+
+/-! ## Regenerated function bodies = steps of the hand model
+
+  `ICal.Gen.BodiesCDict.cd_*` are written by tools/py2lean.py from the current source of the delegating methods of
+  `CaselessDict` on every run: `key = to_unicode(key); [return] super().<m>(key.upper(), ..)`.  `self` is the state of
+  the underlying ordered dict; each `super().<m>` is a parameter, given here the corresponding step of the plain
+  ordered dict of the model (`Bodies.sGetitem` ..; for `setdefault` the `OrderedDict.setdefault` that goes back
+  through the subclass methods).  The theorems: each translated method is the model's `step` on that operation, for
+  the key folding `up k = upper (to_unicode k)`.  Which `super()` method is called, with which arguments in which
+  order, what is returned (a method without `return` returns None but lets the step's exception through) and the
+  defaults of the keyword parameters (`cd_defaults`) are part of the translated code. -/
+
+section bodies
+variable {V : Type} [DecidableEq V]
+theorem body_cd_getitem (tu : Str → Str) (s : Store V) (k : Str) :
+    Gen.BodiesCDict.cd_getitem tu Bodies.sGetitem s k = step (Bodies.upOf tu) s (.getitem k) := Bodies.cd_getitem_eq tu s k
+theorem body_cd_setitem (tu : Str → Str) (s : Store V) (k : Str) (v : V) :
+    Gen.BodiesCDict.cd_setitem tu Bodies.sSetitem s k v = step (Bodies.upOf tu) s (.setitem k v) := Bodies.cd_setitem_eq tu s k v
+theorem body_cd_delitem (tu : Str → Str) (s : Store V) (k : Str) :
+    Gen.BodiesCDict.cd_delitem tu Bodies.sDelitem s k = step (Bodies.upOf tu) s (.delitem k) := Bodies.cd_delitem_eq tu s k
+theorem body_cd_contains (tu : Str → Str) (s : Store V) (k : Str) :
+    Gen.BodiesCDict.cd_contains tu Bodies.sContains s k = step (Bodies.upOf tu) s (.contains k) := Bodies.cd_contains_eq tu s k
+theorem body_cd_has_key (tu : Str → Str) (s : Store V) (k : Str) :
+    Gen.BodiesCDict.cd_has_key tu Bodies.sContains s k = step (Bodies.upOf tu) s (.hasKey k) := Bodies.cd_has_key_eq tu s k
+theorem body_cd_get (tu : Str → Str) (s : Store V) (k : Str) (d : Option V) :
+    Gen.BodiesCDict.cd_get tu Bodies.sGet s k d = step (Bodies.upOf tu) s (.get k d) := Bodies.cd_get_eq tu s k d
+theorem body_cd_setdefault (tu : Str → Str) (s : Store V) (k : Str) (v : V) :
+    Gen.BodiesCDict.cd_setdefault tu (Bodies.sSetdefault (Bodies.upOf tu)) s k v = step (Bodies.upOf tu) s (.setdefault k v) :=
+  Bodies.cd_setdefault_eq tu s k v
+theorem body_cd_pop (tu : Str → Str) (s : Store V) (k : Str) (d : Option V) :
+    Gen.BodiesCDict.cd_pop tu Bodies.sPop s k d = step (Bodies.upOf tu) s (.pop k d) := Bodies.cd_pop_eq tu s k d
+theorem body_cd_popitem (tu : Str → Str) (s : Store V) :
+    Gen.BodiesCDict.cd_popitem cdPopitem s = step (Bodies.upOf tu) s .popitem := Bodies.cd_popitem_eq tu s
+theorem body_cd_move_to_end (tu : Str → Str) (s : Store V) (k : Str) (last : Bool) :
+    Gen.BodiesCDict.cd_move_to_end tu Bodies.sMoveToEnd s k last = step (Bodies.upOf tu) s (.moveToEnd k last) :=
+  Bodies.cd_move_to_end_eq tu s k last
+end bodies
+
+theorem body_cd_defaults :
+    Gen.BodiesCDict.cd_get_default_default = none ∧ Gen.BodiesCDict.cd_pop_default_default = none ∧
+      Gen.BodiesCDict.cd_move_to_end_default_last = true := Bodies.cd_defaults
 
 end ICal.C17
